@@ -372,6 +372,156 @@ def rewriteAt (p : Pattern) (rw : List Action) (ir : IR) (o : OpId) : Outcome :=
     | none => .error
     | some ir' => .done ir'
 
+/-! ## greedy application: `PatternRewriteWalker` (xdsl/pattern_rewriter.py) on one block of region-free operations
+
+Both passes (`apply-pdl`, `apply-pdl-interp`) hand their pattern to a `PatternRewriteWalker` with the default
+configuration.  The walker keeps a worklist (`utils/worklist.py`: a LIFO stack without duplicates), populates it with
+every operation so that the first one (`walk_reverse`: the last one) is on top, visits what it pops, and repeats whole
+walks until one of them changes nothing.  The rewriter's listener pushes created operations, the users of replaced
+results, modified operations and — when an operation is erased — the defining operations of its operands that have
+no other use; an erased operation leaves the worklist.  Which users are pushed first depends on the order of the use
+lists (`IRWithUses`: newest use first), so these are part of the state (`Side.uses`).
+
+The payload component is computed by the specification (`step`) alone; the side state never influences it except
+through the ORDER of the visits.  That order is observable for patterns that are not confluent (XdslProofs/C27Drive). -/
+
+abbrev Use := OpId × Nat
+
+structure Side where
+  uses : AL Val (List Use) := []
+  wl : List OpId := []
+  deriving Repr, Inhabited
+
+/-- `Worklist.push` (top of the stack = head of the list) -/
+def wlPush (o : OpId) (wl : List OpId) : List OpId := if o ∈ wl then wl else o :: wl
+
+def usesOf (u : AL Val (List Use)) (v : Val) : List Use := (AL.get u v).getD []
+
+/-- `IRWithUses.add_use`: the newest use comes first -/
+def addUse (u : AL Val (List Use)) (v : Val) (x : Use) : AL Val (List Use) := AL.set u v (x :: usesOf u v)
+
+def removeUse (u : AL Val (List Use)) (v : Val) (x : Use) : AL Val (List Use) := AL.set u v ((usesOf u v).erase x)
+
+/-- the operands of a new operation are registered in index order -/
+def addUsesFrom (id : OpId) : Nat → List Val → AL Val (List Use) → AL Val (List Use)
+  | _, [], u => u
+  | i, v :: vs, u => addUsesFrom id (i + 1) vs (addUse u v (id, i))
+
+/-- `Operation.drop_all_references` -/
+def removeUsesFrom (id : OpId) : Nat → List Val → AL Val (List Use) → AL Val (List Use)
+  | _, [], u => u
+  | i, v :: vs, u => removeUsesFrom id (i + 1) vs (removeUse u v (id, i))
+
+/-- use lists of a freshly parsed block: operations in program order -/
+def initUses (ir : IR) : AL Val (List Use) :=
+  ir.ops.foldl (fun u x => addUsesFrom x.id 0 x.operands u) []
+
+/-- `PatternRewriter.erase`: `_handle_operation_removal` (single-use producers of the operands are pushed, the
+operation leaves the worklist), then the operation's own uses are dropped -/
+def sideErase (sd : Side) (x : Op) : Side :=
+  let wl1 := x.operands.foldl (fun wl v =>
+    match v with
+    | .res o _ => if (usesOf sd.uses v).length = 1 then wlPush o wl else wl
+    | .arg _ => wl) sd.wl
+  { uses := removeUsesFrom x.id 0 x.operands sd.uses, wl := wl1.filter fun o => !decide (o = x.id) }
+
+/-- `replace_all_uses_with` result by result: every use moves to the front of the new value's use list (in the order
+of the old list), then `_handle_operation_modification` pushes the users -/
+def sideRauw (o : OpId) : Nat → List Val → Side → Side
+  | _, [], sd => sd
+  | k, v :: vs, sd =>
+    if v = .res o k then sideRauw o (k + 1) vs sd
+    else
+      let snap := usesOf sd.uses (.res o k)
+      let uses := snap.foldl (fun u x => addUse (removeUse u (.res o k) x) v x) sd.uses
+      let wl := snap.foldl (fun wl x => wlPush x.1 wl) sd.wl
+      sideRauw o (k + 1) vs { uses := uses, wl := wl }
+
+/-- `PatternRewriter.replace(op, [], values)`: `_handle_operation_replacement` pushes the users of every result,
+then the uses are replaced, then the operation is erased -/
+def sideReplace (sd : Side) (x : Op) (vs : List Val) : Side :=
+  let wl1 := (List.range x.resTys.length).foldl (fun wl k =>
+    (usesOf sd.uses (.res x.id k)).foldl (fun wl u => wlPush u.1 wl) wl) sd.wl
+  sideErase (sideRauw x.id 0 vs { sd with wl := wl1 }) x
+
+/-- what the listener does for one action, given the state BEFORE the action (the same evaluations as `step`) -/
+def sideStep (b : Binding) (st : RState) (sd : Side) : Action → Side
+  | .create _ operands _ _ =>
+    match evalVals st b operands with
+    | some vs =>
+      let id := freshId st.ir.ops
+      { uses := addUsesFrom id 0 vs sd.uses, wl := wlPush id sd.wl }
+    | none => sd
+  | .replaceVals t rs =>
+    match evalOp st b t, evalVals st b rs with
+    | some x, some vs => sideReplace sd x vs
+    | _, _ => sd
+  | .replaceOp t w =>
+    match evalOp st b t, evalOp st b w with
+    | some x, some y => sideReplace sd x ((List.range y.resTys.length).map fun k => Val.res y.id k)
+    | _, _ => sd
+  | .erase t =>
+    match evalOp st b t with
+    | some x => sideErase sd x
+    | none => sd
+
+/-- `steps` with the listener's bookkeeping alongside -/
+def stepsW (rootId : OpId) (b : Binding) : RState → Side → List Action → Option (RState × Side)
+  | st, sd, [] => some (st, sd)
+  | st, sd, a :: r =>
+    match step rootId b st a with
+    | none => none
+    | some st' => stepsW rootId b st' (sideStep b st sd a) r
+
+/-- one visit of operation `o` with matcher `m`: `none` = the rewrite raised (the walker aborts); the flag is
+`rewriter.has_done_action` -/
+def visitW (m : IR → OpId → Option Binding) (rw : List Action) (ir : IR) (sd : Side) (o : OpId) : Option (IR × Side × Bool) :=
+  match m ir o with
+  | none => some (ir, sd, false)
+  | some b =>
+    match stepsW o b { ir := ir, created := [] } sd rw with
+    | none => none
+    | some (st, sd') => some (st.ir, sd', !rw.isEmpty)
+
+/-- `_populate_worklist`: every operation is pushed, in reverse program order (so that the first is on top) unless
+`walk_reverse` -/
+def populate (rev : Bool) (ir : IR) (wl : List OpId) : List OpId :=
+  let ids := ir.ops.map (·.id)
+  (if rev then ids else ids.reverse).foldl (fun wl o => wlPush o wl) wl
+
+structure DState where
+  ir : IR
+  sd : Side
+  changed : Bool
+  deriving Repr, Inhabited
+
+inductive DOut where
+  | done (ir : IR)
+  | error
+  | fuel
+  deriving DecidableEq, Repr, Inhabited
+
+/-- `_process_worklist` inside the `while op_was_modified` loop of `rewrite_region`; `fuel` bounds the number of visits -/
+def driveLoop (m : IR → OpId → Option Binding) (rw : List Action) (rev : Bool) : Nat → DState → DOut
+  | 0, _ => .fuel
+  | fuel + 1, s =>
+    match s.sd.wl with
+    | [] =>
+      if s.changed then
+        driveLoop m rw rev fuel { s with sd := { s.sd with wl := populate rev s.ir [] }, changed := false }
+      else .done s.ir
+    | o :: rest =>
+      match visitW m rw s.ir { s.sd with wl := rest } o with
+      | none => .error
+      | some (ir', sd', ch) => driveLoop m rw rev fuel { ir := ir', sd := sd', changed := s.changed || ch }
+
+def driveWith (m : IR → OpId → Option Binding) (rw : List Action) (rev : Bool) (fuel : Nat) (ir : IR) : DOut :=
+  driveLoop m rw rev fuel { ir := ir, sd := { uses := initUses ir, wl := populate rev ir [] }, changed := false }
+
+/-- greedy application of a PDL pattern by `PatternRewriteWalker(pattern, walk_reverse := rev)` -/
+def driveW (p : Pattern) (rw : List Action) (rev : Bool) (fuel : Nat) (ir : IR) : DOut :=
+  driveWith (matchRoot p) rw rev fuel ir
+
 /-! ## line protocol (all structures travel as sequences of naturals with length prefixes) -/
 
 abbrev P (α : Type) := List Nat → Option (α × List Nat)
@@ -574,7 +724,8 @@ structure State where
   deriving Inhabited
 
 /-- Lines: `pat <nats>` (pattern followed by the action list), `ir <nats>`, `match <pos>`, `apply <pos>`
-(`<pos>` = position of the candidate root operation), `closed` (no dangling uses in the stored IR). -/
+(`<pos>` = position of the candidate root operation), `closed` (no dangling uses in the stored IR),
+`drive <fuel>` / `driverev <fuel>` (greedy application by the walker, program order / `walk_reverse`). -/
 def lineStep (s : State) (line : String) : State × String :=
   match words line with
   | ["reset"] => ({}, "ok")
@@ -602,6 +753,12 @@ def lineStep (s : State) (line : String) : State × String :=
   | [cmd, k] =>
     match s.pat, s.ir, k.toNat? with
     | some (p, rw), some ir, some k =>
+      if cmd = "drive" || cmd = "driverev" then
+        match driveW p rw (cmd = "driverev") k ir with
+        | .done ir' => (s, "done " ++ showIR ir' ++ (if ir'.closed then "" else " !dangling"))
+        | .error => (s, "error")
+        | .fuel => (s, "fuel")
+      else
       match ir.ops[k]? with
       | some x =>
         if cmd = "match" then
